@@ -1,5 +1,6 @@
 import Lean.Data.Json
 import Mistral.Model.Engine
+import Mistral.Model.EngineX
 import Mistral.Drv.Join
 open Lean Mistral Mistral.Engine
 namespace Mistral.Drv.Engine
@@ -72,17 +73,40 @@ def obs (w : World) : Json :=
     ("backlog", Json.arr (w.backlog.map fun c => Json.str c.target).toArray),
     ("crashed", Json.bool w.crashed)]
 
-/-- stateless: the whole event list is replayed (runs are short) -/
+def insSorted (s : String) : List String → List String
+  | [] => [s]
+  | x :: xs => if s ≤ x then s :: x :: xs else x :: insSorted s xs
+
+def sortS (l : List String) : List String := l.foldl (fun acc s => insSorted s acc) []
+
+/-- a world up to the order of its rows and of its pending deliveries -/
+def canon (w : World) : String :=
+  let rows := sortS (w.tasks.map fun t =>
+    s!"{t.name}#{t.occ}:{t.state.toString}:{t.processed}:{t.hasNext}:{t.errorHandled}:{t.nextTasks}")
+  s!"{w.wf.toString}|{rows}|{sortS (w.pending.map itemStr)}|{w.backlog.length}|{w.crashed}"
+
+/-- the definition has no engine command among its (firing) on-clause targets and task names -/
+def cmdFreeB (sp : Spec) : Bool :=
+  (sp.live.all fun l => (l.onSuccess ++ l.onError ++ l.onComplete).all fun x => cmdKind x == .task) &&
+  (sp.graph.tasks.all fun t => cmdKind t.name == .task)
+
+/-- stateless: the whole event list is replayed (runs are short).  The model is `stepX` (engine commands);
+    on a definition WITHOUT engine commands the task-only core `step` (the object of the liveness / refinement
+    theorems) is run alongside and must give the same world up to the order of rows and deliveries
+    (`stepAgrees`; the orders differ by the dispatcher's sort, which `step` does not model). -/
 def handle (fn : String) (a : Json) : Option (Except String Json) :=
   match fn with
   | "engine.run" => some do
       let sp ← specOfJson (← a.getObjVal? "spec")
       let evsJ ← a.getObjValAs? (Array Json) "events"
       let evs ← evsJ.toList.mapM eventOfJson
+      let cf := cmdFreeB sp
       -- observation after every event
-      let (_, out) := evs.foldl (fun (p : World × Array Json) e =>
-        let w' := step sp p.1 e
-        (w', p.2.push (obs w'))) (init, #[])
+      let (_, _, out) := evs.foldl (fun (p : World × World × Array Json) e =>
+        let w' := stepX sp p.1 e
+        let v' := if cf then step sp p.2.1 e else p.2.1
+        let agrees := !cf || canon w' == canon v'
+        (w', v', p.2.2.push ((obs w').setObjVal! "stepAgrees" (Json.bool agrees)))) (init, init, #[])
       pure (Json.arr out)
   | _ => none
 
